@@ -47,6 +47,9 @@ verus! {
         decreases input.span.end - at,
 //@@ before /match pre\.find_in\(input\.haystack\(\), span\)\.into_option\(\)/
                 proof {
+                    // C19: the search advances monotonically — the prefilter is consulted from
+                    // the current position only (never re-scanning bytes already passed)
+                    assert(span.start == at && span.end == input.span.end); // [C19] [C10]
                     assert(aut.startst_s(sid));
                     assert(aut.start_s(Anchored::No) == Some(sid));
                     assert(mat is None);
